@@ -20,7 +20,7 @@ def lines(path):
 
 def run(ctx, n_override=None):
     ctx.audit()
-    n, maxcoef = (140, 2500) if ctx.tier == "quick" else (1200, 40000)
+    n, maxcoef = (140, 2500) if ctx.tier == "quick" else (2500, 30000)
     if n_override: n = n_override
     modes = ["san"] if ctx.tier == "quick" else ["san", "shipped"]
     seen = set(); evals = 0; stats_all = {}
@@ -42,7 +42,7 @@ def run(ctx, n_override=None):
         if rc != 0:
             ctx.tie_ok = False
             ctx.violation({"harness_rc": rc, "stderr": err[-3000:], "replay_cmd": replay_cmd},
-                          "write/read harness %s (rc=%d): %s" % ("timed out" if rc == 124 else "aborted (sanitizer / assertion / crash)", rc, err[-500:]))
+                          "write/read harness %s (rc=%d): %s" % ("timed out" if rc == 124 else "aborted (sanitizer / assertion / crash)", rc, san_head(err)))
             continue
         # shipped files + reserved table through the driver as well
         shipped = sorted(glob.glob(os.path.join(psvlib.REPO, "test/test_data/*.fits")))
@@ -57,7 +57,7 @@ def run(ctx, n_override=None):
         if rc != 0:
             ctx.tie_ok = False
             ctx.violation({"harness_rc": rc, "stderr": err[-3000:], "replay_cmd": replay_cmd},
-                          "real reader on Lean-encoded files %s (rc=%d): %s" % ("timed out" if rc == 124 else "aborted (sanitizer / assertion / crash)", rc, err[-500:]))
+                          "real reader on Lean-encoded files %s (rc=%d): %s" % ("timed out" if rc == 124 else "aborted (sanitizer / assertion / crash)", rc, san_head(err)))
             continue
         rc, fout, err = ctx.run([exe, "file"] + shipped, timeout=300)
         if rc != 0:
@@ -137,6 +137,12 @@ def run(ctx, n_override=None):
         "PERIODn values are not part of the property (15-digit decimal text); generated periods are multiples of 0.25 so that they round-trip",
         "array sizes below 2^63 (no wrap-around in the stride products)",
     ]
+
+
+def san_head(err):
+    """the informative lines of a sanitizer report"""
+    ls = [l.strip() for l in err.splitlines() if "ERROR:" in l or "runtime error" in l or "SUMMARY" in l or "Assertion" in l or (l.startswith("    #") and "photospline" in l)]
+    return " ;; ".join(ls[:8])[:900] or err[-400:]
 
 
 def first_diff(a, b):
